@@ -61,14 +61,32 @@ func c17GuardOf(b *ssa.BasicBlock, cond ssa.Value) int {
 	return 0
 }
 
-// c17ErrNonNil finds the `err != nil` comparison of v used as a branch condition.
-func c17ErrNonNil(v ssa.Value) *ssa.BinOp {
+// c17NilTest finds the comparison of v with nil (`v != nil` or `v == nil`, the latter is what a
+// type switch with a `case nil` produces) used as a branch condition.
+type c17NilTest struct {
+	cond   *ssa.BinOp
+	nonNil bool // the comparison being true means v != nil
+}
+
+func c17ErrNonNil(v ssa.Value) *c17NilTest {
 	for _, ref := range *v.Referrers() {
-		if bo, ok := ref.(*ssa.BinOp); ok && bo.Op == token.NEQ && ((bo.X == v && isNilConst(bo.Y)) || (bo.Y == v && isNilConst(bo.X))) {
-			return bo
+		if bo, ok := ref.(*ssa.BinOp); ok && (bo.Op == token.NEQ || bo.Op == token.EQL) && ((bo.X == v && isNilConst(bo.Y)) || (bo.Y == v && isNilConst(bo.X))) {
+			return &c17NilTest{cond: bo, nonNil: bo.Op == token.NEQ}
 		}
 	}
 	return nil
+}
+
+// at: +1 the value is known non-nil at b, -1 known nil, 0 unknown.
+func (t *c17NilTest) at(b *ssa.BasicBlock) int {
+	if t == nil {
+		return 0
+	}
+	g := c17GuardOf(b, t.cond)
+	if !t.nonNil {
+		g = -g
+	}
+	return g
 }
 
 func c17Extract(call ssa.Value, idx int) ssa.Value {
@@ -82,7 +100,7 @@ func c17Extract(call ssa.Value, idx int) ssa.Value {
 
 func c17Go(m *c17Model) {
 	p := m.p
-	ru := m.r.Rule("C17.go", "cli.Main exits with 0 for a nil error, with ExitCode() of an interp.Exiter and with 1 otherwise; Interp.Main evaluates _main, returns the *gojq.HaltError it receives (value written to stderr), returns other errors, and returns nil only when the iterator is exhausted; *gojq.HaltError is an Exiter; halt value printing: nil nothing, Go string raw, otherwise JSON plus newline", 22)
+	ru := m.r.Rule("C17.go", "cli.Main exits with 0 for a nil error, with ExitCode() of an interp.Exiter and with 1 otherwise; Interp.Main evaluates _main, returns the *gojq.HaltError it receives (value written to stderr), returns other errors, and returns nil only when the iterator is exhausted; *gojq.HaltError is an Exiter; halt value printing: nil nothing, Go string raw, otherwise JSON plus newline; the generic status 1 is used only for non-Exiter errors; an error received from _main always ends the run; JSON indent is 0 iff options.compact; the stream names stdin/stdout/stderr select the matching OS streams, which write to os.Stdout/os.Stderr", 29)
 
 	exiter := p.NamedType("pkg/interp", "Exiter")
 	mainM := p.Fn("(*pkg/interp.Interp).Main")
@@ -127,6 +145,16 @@ func c17Go(m *c17Model) {
 				if ne == nil {
 					ru.Undecided("cli.Main:err-test", p.Rel(mcall.Pos()), "result of Interp.Main is not tested against nil")
 				} else {
+					// the test deciding whether the error carries an exit code
+					var exiterTest ssa.Value
+					for _, ref := range *mcall.Referrers() {
+						if ta, ok := ref.(*ssa.TypeAssert); ok && ta.CommaOk && types.Identical(ta.AssertedType, exiter) {
+							exiterTest = c17Extract(ta, 1)
+						}
+						if as, ok := ref.(*ssa.Call); ok && as.Common().StaticCallee() != nil && as.Common().StaticCallee().String() == "errors.As" {
+							exiterTest = as
+						}
+					}
 					n0, nExit, n1 := 0, 0, 0
 					for _, ret := range returnsOf(body) {
 						if ret.Block() == body.Recover {
@@ -137,12 +165,14 @@ func c17Go(m *c17Model) {
 						if k, ok := c17ConstInt(v); ok {
 							if k == 0 {
 								n0++
-								ru.Check(c17GuardOf(ret.Block(), ne) == -1, "cli.Main:return-0", pos, "status 0 only when Interp.Main returned nil",
+								ru.Check(ne.at(ret.Block()) == -1, "cli.Main:return-0", pos, "status 0 only when Interp.Main returned nil",
 									"status 0 is returned on a path where the error of Interp.Main is not known to be nil")
 							} else {
-								if c17GuardOf(ret.Block(), ne) == 1 {
+								if ne.at(ret.Block()) == 1 {
 									n1++
 									ru.Check(k == 1, "cli.Main:return-other", pos, "non-Exiter error -> 1", "an error that carries no exit code maps to a status other than 1")
+									ru.Check(exiterTest != nil && c17GuardOf(ret.Block(), exiterTest) == -1, "cli.Main:other-only-non-exiter", pos, "the generic status is used only when the error is not an interp.Exiter",
+										"the generic status 1 is also reached when the error IS an interp.Exiter (some exit codes are replaced): a halt with code 0 (`halt`, halt_error(0)) or any filtered code no longer reaches the process status")
 								}
 							}
 							continue
@@ -170,7 +200,7 @@ func c17Go(m *c17Model) {
 							ru.Check(ok2, "cli.Main:return-exitcode", pos, "err.(interp.Exiter).ExitCode()", "the exit code is not taken from the error returned by Interp.Main asserted to interp.Exiter")
 							continue
 						}
-						if c17GuardOf(ret.Block(), ne) != 0 {
+						if ne.at(ret.Block()) != 0 {
 							ru.Undecided("cli.Main:return", pos, "unrecognised status value "+v.String())
 						}
 					}
@@ -258,7 +288,7 @@ func c17Go(m *c17Model) {
 		case isNilConst(v):
 			nNil++
 			ru.Check(c17GuardOf(b, nextOK) == -1, "Interp.Main:return-nil", rp, "nil only when the iterator is exhausted", "Interp.Main returns nil on a path where the iterator was not exhausted: an error or halt is swallowed and fq exits 0")
-		case evalNE != nil && c17GuardOf(b, evalNE) == 1:
+		case evalNE != nil && evalNE.at(b) == 1:
 			nEval++
 			ru.Check(v == evalErr, "Interp.Main:return-evalerr", rp, "returns the EvalFunc error", "failure to start _main does not return its error")
 		case inAs == 1:
@@ -289,6 +319,24 @@ func c17Go(m *c17Model) {
 			ru.Undecided("Interp.Main:return", rp, "unclassified return "+v.String())
 		}
 	}
+	// once an error value was received from _main the run is over: control must not leave the
+	// region in which the value is known to be an error other than by returning (a `continue` or a
+	// fall-through to the next iteration swallows the error and the process exits 0)
+	{
+		leaks := 0
+		for _, b := range mainM.Blocks {
+			if b == mainM.Recover || c17GuardOf(b, errOK) != 1 {
+				continue
+			}
+			for _, s := range b.Succs {
+				if c17GuardOf(s, errOK) != 1 {
+					leaks++
+				}
+			}
+		}
+		ru.Check(leaks == 0, "Interp.Main:error-ends-run", pos, "every path on which _main delivered an error ends in a return",
+			fmt.Sprintf("%d control flow edge(s) leave the handling of an error value received from _main without returning: the error is swallowed, the loop goes on and the exit status no longer reflects it", leaks))
+	}
 	ru.Check(nHalt >= 1, "Interp.Main:has-halt", pos, "halt path returns the HaltError", "no path returns the HaltError")
 	ru.Check(nErr >= 1 && nNil >= 1 && nEval >= 1, "Interp.Main:has-paths", pos, "error, exhausted and start-failure paths exist", "a return path of Interp.Main disappeared")
 	// the halt value goes to stderr
@@ -307,6 +355,7 @@ func c17Go(m *c17Model) {
 	}
 	ru.Check(toStderr >= 1, "Interp.Main:halt-stderr", pos, "halt value written to stderr", "the value of a halt_error (error: ... messages) is no longer written to stderr")
 	c17HaltPrint(ru, p)
+	c17GoMore(m, ru)
 }
 
 // ---------------------------------------------------------------------------
